@@ -58,13 +58,21 @@ func gen(seed int64, tier, mode string) Scenario {
 		sc.Proto = []string{"range", "coop", "848"}[r.Intn(3)]
 		sc.ProcMs = 3
 		sc.Steps = append(sc.Steps, Step{Op: "join", M: 1}, Step{Op: "produce", N: 12}, Step{Op: "sleep", Ms: 300})
-		off := int64(0)
 		n := 3 + r.Intn(3)
+		// every commit of the scenario carries a distinct offset; mostly increasing, sometimes rewinding (committing an
+		// earlier position again is legal and must be reflected by the broker and by CommittedOffsets alike)
+		offs := r.Perm(11)[:n]
+		if r.Intn(3) != 0 {
+			sort.Ints(offs)
+			if n >= 3 && r.Intn(2) == 0 { // one rewind at the end
+				offs[n-1], offs[n-3] = offs[n-3], offs[n-1]
+			}
+		}
 		for i := 0; i < n; i++ {
 			if r.Intn(3) == 0 {
 				sc.Steps = append(sc.Steps, Step{Op: "fault", Kind: []string{"loading", "stall", "notcoord"}[r.Intn(3)], Ms: 100 + r.Intn(600)})
 			}
-			off += 1 + int64(r.Intn(2))
+			off := int64(offs[i] + 1)
 			st := Step{Op: "commit", M: 1, Kind: []string{"async", "async", "async", "sync", "records", "uncommitted"}[r.Intn(6)], Off: off}
 			if r.Intn(3) == 0 {
 				st.Cancel = 20 + r.Intn(100)
